@@ -1305,3 +1305,43 @@ def check_panic_site_table(ctx, res):
     if len(cur) < 60:
         res.fail(Finding("R3c-anchor-lost", "sites", "only %d site keys found (floor 60)" % len(cur), file="src", line=0))
     res.clause("R3c: every release-live explicit panic site (and every overflow-checked negation of a signed primitive) belongs to the reviewed inventory; a new one is unclassified")
+
+
+def check_underflow_check_sees_all_digits(ctx, res, config="all"):
+    """the underflow assertion of sub2 / sub2rev inspects the subtrahend's digits beyond the minuend's length; it can only do so
+    if the subtrahend operand handed to it is not a proper sub-range (prefix / middle) of a digit vector"""
+    facts = ctx.facts(config)
+    n = 0
+    for b in facts.bodies:
+        k = 0
+        for i, t in b.calls():
+            c = callee(t) or ""
+            if i not in b.live_blocks() or not (c.endswith("subtraction::sub2") or c.endswith("subtraction::sub2rev")):
+                continue
+            n += 1
+            key = "%s|%s#%d" % (b.path, c.split("::")[-1], k)
+            k += 1
+            sub = t["args"][1]
+            fl = core.Flow(b, transparent={"deref", "deref_mut", "as_slice", "as_mut_slice"})
+            rr = fl.roots_of_operand(sub)
+            bad = None
+            for r in rr:
+                if r[0] == "call" and (r[2] or "").find("index") >= 0:
+                    # which range type indexes the vector?
+                    cal = b.blocks[r[1]]["term"]
+                    full = callee_fn(cal).get("full") or ""
+                    if "RangeTo<" in full or "ops::Range<" in full or "RangeInclusive" in full or "RangeToInclusive" in full:
+                        # stripping high *zero* digits (range end = rposition of the last non-zero digit) loses nothing;
+                        # a cut at another vector's length does
+                        ra = Atoms(b).of_operand(cal["args"][1])
+                        if "rposition" in calls_of(ra) and "len" not in calls_of(ra):
+                            continue
+                        bad = full
+            if bad:
+                res.fail(Finding("R3a-underflow-coverage", key, "the subtrahend passed to %s is a truncated sub-range (%s): digits beyond it are invisible to the mandatory underflow assertion, so a larger subtrahend can go undetected" % (c.split("::")[-1], bad.split(" for ")[0][-60:]), b, t["span"]["line"]))
+            else:
+                res.ok("R3a-underflow-coverage", key, None)
+    res.count("sub2/sub2rev call sites", n)
+    if n < 8:
+        res.fail(Finding("R3a-anchor-lost", "sub2-callers", "only %d call sites of sub2/sub2rev found (floor 8)" % n, file="src/biguint/subtraction.rs", line=0))
+    res.clause("R3a: no call site hands sub2/sub2rev a truncated prefix of the subtrahend (the underflow assertion must see all its digits)")
